@@ -51,6 +51,14 @@ apply: bayes_identity => //; first exact: detB_pos.
   by move: (congr1 (@sc _) H); rewrite !scD.
 - exact: (det_B_A HC HL HA).
 Qed.
+(* the conditional density of the linear parameters: p(y | x) p(x) / p(y) = N(x | a, A) *)
+Theorem conditional_density_real (x : 'cV[R]_k) :
+  gauss_ln A Ainv (x - a) = gauss_ln C Ci (y - M *m x) + gauss_ln L Li (x - mu) - gauss_ln B Binv (M *m mu - y).
+Proof.
+have H := bayes_identity_real x.
+move: H. set p := gauss_ln B Binv _. set q1 := gauss_ln C Ci _. set q2 := gauss_ln L Li _. set q3 := gauss_ln A Ainv _.
+by move=> ->; rewrite opprB addrC subrK.
+Qed.
 End RealBayes.
 
 (* change of the velocity unit by c > 0: the value moves by exactly - n ln c *)
